@@ -149,7 +149,7 @@ AS_FLOW0 = dict(
 )
 
 
-def build_aerostruct(surfs, flow=None, npoints=1, compressible=False, rotational=False, mode="rev", user_sref=None, fuel_vol_delta=False, point_flows=None, setup=True, pm=None):
+def build_aerostruct(surfs, flow=None, npoints=1, compressible=False, rotational=False, mode="rev", user_sref=None, fuel_vol_delta=False, point_flows=None, setup=True, pm=None, cross_fuelburn=False, register=None):
     """AerostructGeometry per surface + AerostructPoint(s) AS_point_0.. wired as in the integration tests.
     point_flows: optional list of per-point overrides {name: value} (gives each point its own IVC vars)."""
     from openaerostruct.integration.aerostruct_groups import AerostructGeometry, AerostructPoint
@@ -206,7 +206,13 @@ def build_aerostruct(surfs, flow=None, npoints=1, compressible=False, rotational
     c = p.model.connect
     for i in range(npoints):
         pn = "AS_point_%d" % i
-        p.model.add_subsystem(pn, AerostructPoint(surfaces=surfs, compressible=compressible, rotational=rotational, user_specified_Sref=user_sref is not None))
+        if cross_fuelburn:
+            # the documented multipoint pattern: the cruise point's fuel burn sizes the weight used at every flight point
+            p.model.add_subsystem(pn, AerostructPoint(surfaces=surfs, compressible=compressible, rotational=rotational, user_specified_Sref=user_sref is not None, internally_connect_fuelburn=False))
+            c("AS_point_0.fuelburn", pn + ".total_perf.L_equals_W.fuelburn")
+            c("AS_point_0.fuelburn", pn + ".total_perf.CG.fuelburn")
+        else:
+            p.model.add_subsystem(pn, AerostructPoint(surfaces=surfs, compressible=compressible, rotational=rotational, user_specified_Sref=user_sref is not None))
         for k in per_point:
             src = k if point_flows is None else "%s_%d" % (k, i)
             if k == "omega":
@@ -252,6 +258,14 @@ def build_aerostruct(surfs, flow=None, npoints=1, compressible=False, rotational
         p.model.add_subsystem("fuel_vol_delta", WingboxFuelVolDelta(surface=s))
         c("AS_point_0.fuelburn", "fuel_vol_delta.fuelburn")
         c(s["name"] + ".struct_setup.fuel_vols", "fuel_vol_delta.fuel_vols")
+    if register:
+        # responses and design variables registered with the driver, as an optimisation script does
+        of, wrt = register
+        p.model.add_objective(of[0])
+        for o in of[1:]:
+            p.model.add_constraint(o, upper=0.0)
+        for w in wrt:
+            p.model.add_design_var(w)
     if not setup:
         return p
     p.setup(mode=mode)
@@ -263,8 +277,16 @@ def tighten(p, npoints=1, rtol=1e-13, maxiter=500, nl="aitken", lin="direct", at
     """user-level solver settings on the coupled groups (after setup, before run)"""
     for i in range(npoints):
         cp = getattr(p.model, "AS_point_%d" % i).coupled
-        if nl == "aitken":
+        if nl == "default":
+            # the library's own solver object, only its documented tolerance options changed
+            cp.nonlinear_solver.options.update(dict(maxiter=maxiter, atol=atol, rtol=rtol, err_on_non_converge=True, iprint=-1))
+        elif nl == "aitken":
             cp.nonlinear_solver = om.NonlinearBlockGS(use_aitken=True, maxiter=maxiter, atol=atol, rtol=rtol, err_on_non_converge=True, iprint=-1)
+        elif nl == "aitken_f07":
+            # a supported option of the default solver: first relaxation factor below one
+            cp.nonlinear_solver = om.NonlinearBlockGS(use_aitken=True, aitken_initial_factor=0.7, maxiter=maxiter, atol=atol, rtol=rtol, err_on_non_converge=True, iprint=-1)
+        elif nl == "nlbgs_apply":
+            cp.nonlinear_solver = om.NonlinearBlockGS(use_aitken=False, use_apply_nonlinear=True, maxiter=maxiter, atol=atol, rtol=rtol, err_on_non_converge=True, iprint=-1)
         elif nl == "nlbgs":
             cp.nonlinear_solver = om.NonlinearBlockGS(use_aitken=False, maxiter=maxiter, atol=atol, rtol=rtol, err_on_non_converge=True, iprint=-1)
         elif nl == "newton":
